@@ -366,6 +366,7 @@ class ScipyOptimizeDriver(Driver):
                         # LinearConstraint
                         con = LinearConstraint(A=lincongrad[self._con_idx[name]],
                                                lb=lb, ub=ub, keep_feasible=True)
+                        constraints.append(con)
                     else:
                         # NonlinearConstraint
                         # Loop over every index separately,
@@ -383,7 +384,7 @@ class ScipyOptimizeDriver(Driver):
                                 jac=signature_extender(
                                     WeakMethodWrapper(self, '_congradfunc'), args)
                             )
-                    constraints.append(con)
+                            constraints.append(con)
                 else:
                     # Type of constraints is list of dict
 
